@@ -84,9 +84,28 @@ class Names:
         return ref_name(i)
 
 
+def respell(text):
+    """the same integer constants in other spellings: hexadecimal, binary, L suffix (the value in a #if does not change)"""
+    import re
+
+    def sp(m):
+        v = int(m.group(0))
+        k = v % 5
+        if k == 1:
+            return hex(v)
+        if k == 2:
+            return '%dL' % v
+        if k == 3:
+            return '0X%X' % v
+        if k == 4 and v < 4096:
+            return bin(v)
+        return m.group(0)
+    return re.sub(r'(?<![A-Za-z_0-9])\d+(?![A-Za-z_0-9])', sp, text)
+
+
 def cond_text(c, first):
     if c[0] == 'if':
-        return ('#if ' if first else '#elif ') + X.minimal(c[1], Names())
+        return ('#if ' if first else '#elif ') + respell(X.minimal(c[1], Names()))
     if c[0] == 'ifdef':
         return ('#ifdef M%d' if first else '#elifdef M%d') % c[1]
     return ('#ifndef M%d' if first else '#elifndef M%d') % c[1]
